@@ -9,7 +9,16 @@ import re
 from vpc.core import REPO, cN, cbool, clist, copt
 
 IMPORTS = "Require Import V.model.GetRecord."
-THEOREMS = ["constants_consistent", "one_outcome_per_caller", "terminating_event_ends_wait"]
+THEOREMS = [
+    "constants_consistent", "one_outcome_per_caller", "terminating_event_ends_wait",
+    "dedup_order_irrelevant", "ok_is_a_reply", "ok_needs_quorum", "ok_under_query_cfg",
+    "below_quorum", "finished_never_ok_unchecked", "timeout_never_ok",
+    "split_returns_all_versions", "split_is_complete", "merged_is_transaction_union", "merged_covers_all",
+    "merge_perm_invariant", "split_tx_is_union", "split_reg_is_union", "split_pad_is_max",
+    "api_ok_is_reply_or_merge",
+    "joined_caller_refuted", "merge_forked_register_refuted", "merge_mixed_kinds_refuted",
+    "merge_scratchpad_tie_refuted", "merged_drops_quorum_version_refuted",
+]
 RULE = ("histories of 2-14 events on a real client-mode SwarmDriver: 1-4 callers (raw oneshot callers and real "
         "get_record_from_network futures) on 1-2 keys with equal/different quorum (One, Majority, All, N(1..7), "
         "N(huge)) / target / is_register settings, 0-8 responders incl. the local peer (None and Some(self)), 1-4 "
@@ -413,6 +422,13 @@ def oracle_factory(cgs):
                           % (cid, c["key"], lastq)))
             for step, oc in outs:
                 v += judge_outcome(h, cid, c, step, oc)
+                if oc.get("closed"):
+                    # a sender dropped unsent is explained only by a co-caller of the same query that
+                    # gave up before (delivery stops at the first dead receiver: observation O3)
+                    mates = [x for x, cc in enumerate(h.callers) if cc["q"] == c["q"] and x != cid]
+                    if not any(m in h.dropped for m in mates):
+                        v.append(("caller-channel-closed", "caller %d (key %d) found its channel closed without an outcome "
+                                  "although no caller of its query had dropped its receiver" % (cid, c["key"])))
         return v
 
     def judge_outcome(h, cid, c, step, oc):
@@ -430,30 +446,45 @@ def oracle_factory(cgs):
         if okrec is not None:
             cj = cjson(okrec["c"])
             need = quorum_value(c["cfg"]["q"], cgs)
-            exact = [r for p, x, r in reps if x == cj and r["key"] == okrec["key"] and r["pub"] == okrec["pub"]]
-            kind, val = spec_merge([json.loads(x) for x in by_content], c["key"])
-            api_merge = "api_ok" in oc and len(by_content) > 1 and okrec["key"] == c["key"] and okrec["pub"] is None \
-                and (kind == "class" or (val is not None and content_modtx(okrec["c"]) == content_modtx(val)))
-            if api_merge:
-                pass          # the split merge of get_record_from_network (order-dependent classes: see the split cases)
-            elif cj in by_content and exact:
-                bad = []
-                if len(by_content[cj]) < need:
-                    bad.append("only %d distinct peer(s) returned this content, the caller's quorum is %d" % (len(by_content[cj]), need))
-                if not target_ok(c["cfg"], okrec):
-                    bad.append("the record is not the caller's expected record")
-                if bad:
-                    cls = "F10-joined-under-first-cfg" if joined_other else "ok-without-quorum-or-target"
-                    v.append((cls, "caller %d (quorum %s, target %s) received Ok for key %d: %s%s"
-                              % (cid, c["cfg"]["q"], "given" if c["cfg"].get("target") else "none", c["key"], "; ".join(bad),
-                                 " -- it joined the in-flight query of a caller with a different configuration" if joined_other else "")))
+            versions = [json.loads(x) for x in by_content]
+            if len(by_content) <= 1:
+                # a single version: Ok must be a reply, under the caller's own quorum and target
+                exact = [r for p, x, r in reps if x == cj and r["key"] == okrec["key"] and r["pub"] == okrec["pub"]]
+                if not exact:
+                    v.append(("ok-unexplained-value", "caller %d received Ok(%s) which no peer returned" % (cid, cj[:300])))
+                else:
+                    bad = []
+                    if len(by_content[cj]) < need:
+                        bad.append("only %d distinct peer(s) returned this content, the caller's quorum is %d" % (len(by_content[cj]), need))
+                    if not target_ok(c["cfg"], okrec):
+                        bad.append("the record is not the caller's expected record")
+                    if bad:
+                        cls = "F10-joined-under-first-cfg" if joined_other else "ok-without-quorum-or-target"
+                        v.append((cls, "caller %d (quorum %s, target %s) received Ok for key %d: %s%s"
+                                  % (cid, c["cfg"]["q"], "given" if c["cfg"].get("target") else "none", c["key"], "; ".join(bad),
+                                     " -- it joined the in-flight query of a caller with a different configuration" if joined_other else "")))
             else:
-                # not a reply: kad.rs merges only transactions (sorted set) when the quorum is reached on a split
-                txs = sorted({i for x in by_content for cc in [json.loads(x)] if cc["hdr"] == 2 and cc["p"][0] == "tx"
-                              for i in cc["p"][1]})
-                if len(by_content) < 2 or not txs or cjson(okrec["c"]) != cjson(c_tx(txs)) or okrec["pub"] is not None:
-                    v.append(("ok-unexplained-value", "caller %d received Ok(%s) which is neither a reply nor the "
-                              "deterministic merge of the %d versions seen (%s)" % (cid, cj[:300], len(by_content), cjson(val))))
+                # differing content: Ok must be the deterministic merge of ALL versions seen.
+                # kad.rs (quorum reached on a split) sends the sorted union of the transactions;
+                # lib.rs (api callers) merges the versions of a SplitRecord error.
+                txv = [cc for cc in versions if cc["hdr"] == 2 and cc["p"][0] == "tx"]
+                txs = sorted({i for cc in txv for i in cc["p"][1]})
+                kad_union = bool(txs) and cjson(okrec["c"]) == cjson(c_tx(txs)) and okrec["pub"] is None
+                kind, val = spec_merge(versions, c["key"])
+                lib_merge = "api_ok" in oc and okrec["key"] == c["key"] and okrec["pub"] is None \
+                    and (kind == "class" or (val is not None and content_modtx(okrec["c"]) == content_modtx(val)))
+                if kad_union and len(txv) == len(versions):
+                    pass
+                elif lib_merge:
+                    pass      # order-dependent classes are demonstrated by the split cases
+                elif kad_union:
+                    v.append(("quorum-merge-drops-non-transactions",
+                              "caller %d received Ok(%s): the quorum was reached while %d versions were present; only the "
+                              "%d transaction version(s) were merged, the other version(s) %s were dropped"
+                              % (cid, cj[:200], len(versions), len(txv), [cjson(x)[:80] for x in versions if x not in txv])))
+                else:
+                    v.append(("ok-unexplained-value", "caller %d received Ok(%s) which is not the deterministic merge of the "
+                              "%d versions seen (%s)" % (cid, cj[:300], len(versions), cjson(val)[:300])))
         elif oc.get("err") == "split" or (oc.get("api_err") or {}).get("err") == "split":
             e = oc if "err" in oc else oc["api_err"]
             got = {cjson(x[0]["c"]): set(x[1]) for x in e["vers"]}
